@@ -559,4 +559,181 @@ theorem detach_refused (s : St) (h len : Nat) (hr : (s.detach h len).2 = false) 
     (repeat' split at hr) <;> first | (cases hr; done) | skip
     all_goals (repeat' split) <;> first | rfl | simp_all
 
+/-! ### the C++ handle class -/
+
+theorem assignRef_inv (s : St) (h : Nat) (src : Option Nat) (hI : Inv s) (hh : h < s.hnd.length) :
+    Inv (s.assignRef h src) := by
+  unfold St.assignRef
+  split
+  · exact hI
+  · obtain ⟨a, ah⟩ := retain_invP s src hI
+    have hp : ∀ b, s.hnd.getD h none = some b → 1 ≤ ((s.retain src).1.obj b).count := by
+      intro b hb
+      have h1 := (a b).1
+      have h2 := hrefs_pos s.hnd h b hb
+      rw [ah] at h1
+      simp only [ind] at h1
+      (repeat' split at h1) <;> omega
+    obtain ⟨b, bh⟩ := release_invP (s.retain src).1 _ (s.hnd.getD h none) a hp
+    have c := sethnd_invP _ _ h (if (s.retain src).2 then src else none) b (by rw [bh, ah]; exact hh)
+    refine invP_congr _ _ _ c (fun x => ?_)
+    simp only [bh, ah]
+    by_cases hr : (s.retain src).2 = true
+    · simp only [hr, ↓reduceIte]; omega
+    · have hr' : (s.retain src).2 = false := by simpa using hr
+      simp only [hr', Bool.false_eq_true, ↓reduceIte, ind, reduceCtorEq]; omega
+
+theorem moveRef_inv (s : St) (h g : Nat) (hI : Inv s) (hh : h < s.hnd.length) (hg : g < s.hnd.length) :
+    Inv (s.moveRef h g) := by
+  unfold St.moveRef
+  split
+  · exact hI
+  · rename_i hne
+    have a := sethnd_invP s _ g none hI hg
+    have hgd : ({ s with hnd := s.hnd.set g none } : St).hnd.getD h none = s.hnd.getD h none := by
+      show (s.hnd.set g none).getD h none = _
+      simp only [List.getD_eq_getElem?_getD]
+      rw [List.getElem?_set_ne (fun e => hne e.symm)]
+    have hp : ∀ b, s.hnd.getD h none = some b → 1 ≤ (({ s with hnd := s.hnd.set g none } : St).obj b).count := by
+      intro b hb
+      show 1 ≤ (s.obj b).count
+      have h0 := (hI b).1; simp only [Int.add_zero] at h0
+      have := hrefs_pos s.hnd h b hb
+      omega
+    obtain ⟨b, bh⟩ := release_invP _ _ (s.hnd.getD h none) a hp
+    have c := sethnd_invP _ _ h (s.hnd.getD g none) b (by rw [bh]; show h < (s.hnd.set g none).length; simpa using hh)
+    refine invP_congr _ _ _ c (fun x => ?_)
+    rw [bh, hgd]
+    simp only [ind, reduceCtorEq, ↓reduceIte]
+    omega
+
+theorem detachRef_inv (s : St) (h : Nat) (hI : Inv s) (hh : h < s.hnd.length) : Inv (s.detachRef h) := by
+  unfold St.detachRef
+  cases ho : s.hnd.getD h none with
+  | none => exact hI
+  | some o =>
+    simp only []
+    have hl : o < s.objs.length := by
+      have h0 := (hI o).1; simp only [Int.add_zero] at h0
+      have := hrefs_pos s.hnd h o ho
+      have hc : 1 ≤ (s.obj o).count := by omega
+      have ha : (s.obj o).alive = true := by
+        cases hx : (s.obj o).alive with
+        | true => rfl
+        | false => have := (hI o).2.2 hx; omega
+      exact obj_alive_lt s o ha
+    have a := sethnd_invP s _ h none hI hh
+    have b := setext_invP ({ s with hnd := s.hnd.set h none } : St) _ o ((s.obj o).ext + 1) a hl
+    refine invP_congr _ _ _ b (fun x => ?_)
+    show (0 : Int) + ind (s.hnd.getD h none) x - ind none x - (if x = o then (((s.obj o).ext + 1 : Nat) : Int) - (s.obj o).ext else 0) = 0
+    rw [ho]
+    simp only [ind, Option.some.injEq, reduceCtorEq, ↓reduceIte]
+    by_cases e : x = o
+    · subst e; simp only [↓reduceIte]; omega
+    · have e' : ¬ o = x := fun y => e y.symm
+      simp only [e, e', ↓reduceIte]; omega
+
+theorem cascade_inv (s : St) (nroot fuel : Nat) (hI : Inv s) (hl : ∀ o, o < s.objs.length → nroot + o < s.hnd.length) :
+    Inv (s.cascade nroot fuel) := by
+  induction fuel generalizing s with
+  | zero => exact hI
+  | succ n ih =>
+    unfold St.cascade
+    cases hp : s.pendingOwner nroot with
+    | none => exact hI
+    | some o =>
+      simp only []
+      have ho : o < s.objs.length := by
+        unfold St.pendingOwner at hp
+        have := List.mem_of_find?_eq_some hp
+        simpa using this
+      have hd := drop_inv s (nroot + o) hI (hl o ho)
+      apply ih _ hd
+      intro o' ho'
+      have e1 : (s.drop (nroot + o)).objs.length = s.objs.length := by
+        unfold St.drop; split
+        · rfl
+        · unfold St.unref; simp only []; (repeat' split) <;> simp
+      have e2 : (s.drop (nroot + o)).hnd.length = s.hnd.length := by
+        unfold St.drop; split
+        · rfl
+        · simp [unref_hnd]
+      rw [e2]; rw [e1] at ho'; exact hl o' ho'
+
+
+/-- number of objects and of handle slots -/
+def St.shape (s : St) : Nat × Nat := (s.objs.length, s.hnd.length)
+
+theorem addref_shape (s : St) (o : Nat) : (s.addref o).1.shape = s.shape := by
+  unfold St.addref St.shape; simp only []; split <;> simp
+
+theorem unref_shape (s : St) (o : Nat) : (s.unref o).shape = s.shape := by
+  unfold St.unref St.shape; simp only []; (repeat' split) <;> simp
+
+theorem retain_shape (s : St) (src : Option Nat) : (s.retain src).1.shape = s.shape := by
+  unfold St.retain; cases src with
+  | none => rfl
+  | some n => exact addref_shape s n
+
+theorem release_shape (s : St) (old : Option Nat) : (s.release old).shape = s.shape := by
+  unfold St.release; cases old with
+  | none => rfl
+  | some n => exact unref_shape s n
+
+theorem sethnd_shape (s : St) (h : Nat) (v : Option Nat) : ({ s with hnd := s.hnd.set h v } : St).shape = s.shape := by
+  simp [St.shape]
+
+theorem drop_shape (s : St) (h : Nat) : (s.drop h).shape = s.shape := by
+  unfold St.drop; split
+  · rfl
+  · rw [sethnd_shape, unref_shape]
+
+theorem assignRef_shape (s : St) (h : Nat) (src : Option Nat) : (s.assignRef h src).shape = s.shape := by
+  unfold St.assignRef; split
+  · rfl
+  · rw [sethnd_shape, release_shape, retain_shape]
+
+theorem moveRef_shape (s : St) (h g : Nat) : (s.moveRef h g).shape = s.shape := by
+  unfold St.moveRef; split
+  · rfl
+  · rw [sethnd_shape, release_shape, sethnd_shape]
+
+theorem detachRef_shape (s : St) (h : Nat) : (s.detachRef h).shape = s.shape := by
+  unfold St.detachRef; split
+  · rfl
+  · simp [St.shape]
+
+theorem extUnref_shape (s : St) (o : Nat) : (s.extUnref o).shape = s.shape := by
+  unfold St.extUnref
+  have := unref_shape s o
+  simp only [St.shape, List.length_set, Prod.mk.injEq] at this ⊢
+  exact this
+
+theorem cascade_shape (s : St) (nroot fuel : Nat) : (s.cascade nroot fuel).shape = s.shape := by
+  induction fuel generalizing s with
+  | zero => rfl
+  | succ n ih =>
+    unfold St.cascade
+    split
+    · rfl
+    · rw [ih, drop_shape]
+
+/-- every object has its owned handle slot -/
+def Slots (s : St) (nroot : Nat) : Prop := ∀ o, o < s.objs.length → nroot + o < s.hnd.length
+
+theorem slots_of_shape (s s' : St) (nroot : Nat) (h : s'.shape = s.shape) (hs : Slots s nroot) : Slots s' nroot := by
+  simp only [St.shape, Prod.mk.injEq] at h
+  intro o ho
+  rw [h.2]; rw [h.1] at ho; exact hs o ho
+
+/-- a handle never names a destroyed object -/
+theorem inv_referenced_alive (s : St) (hI : Inv s) (h o : Nat) (hn : s.hnd.getD h none = some o) :
+    (s.obj o).alive = true := by
+  have hi := hI o
+  simp only [Int.add_zero] at hi
+  have hp := hrefs_pos _ h o hn
+  cases ha : (s.obj o).alive with
+  | true => rfl
+  | false => have := hi.2.2 ha; omega
+
 end Mpt.Refcount
